@@ -12,7 +12,11 @@ THEOREMS = ["Visitor.prune_meaning", "Visitor.escape_iff", "Visitor.nested", "Vi
             "Visitor.builder_stack_empty", "Visitor.dispatch_same_family", "Visitor.dispatch_unpaired_counterexample",
             "Visitor.general_walk", "Visitor.balanced_general", "Visitor.escape_general", "Visitor.general_walk_plain",
             "Visitor.new_departure_prune_balanced", "Visitor.old_departure_prune_unbalanced", "Visitor.old_departure_prune_escape",
-            "Visitor.inline_visit_unbalanced_counterexample", "Visitor.inline_visit_order_counterexample"]
+            "Visitor.inline_visit_unbalanced_counterexample", "Visitor.inline_visit_order_counterexample",
+            "Visitor.walk_is_walkabout_visits", "Visitor.walk_meaning", "Visitor.walk_escape_iff", "Visitor.walk_visits_only",
+            "Visitor.walk_ext_preorder", "Visitor.walk_main_preorder", "Visitor.walk_enter_once",
+            "Visitor.walk_same_nodes_as_walkabout", "Visitor.walk_leaf",
+            "Visitor.extsOf_append", "Visitor.late_add_ext_view", "Visitor.late_add_main_view", "Visitor.late_add_new_view"]
 RULE = ("exhaustive: every ordered tree of <=4 nodes (9 shapes) x every assignment of the 5 pruning actions x every "
         "subset of the 4 timings (one extension each) run through the real pydoctor.visitor.Visitor.walkabout/walk and "
         "through the Lean model; plus random trees of 5-9 nodes with repeated timings; plus the real ASTBuilder on "
@@ -279,6 +283,55 @@ def oracle(tree, exts: str, out: str) -> Tuple[str, str] | None:
         if prev and prev[0] == kind and prev[1] == node and r < prev[2]:
             return ("order", f"{e} out of documented order")
         prev = (kind, node, r)
+    return None
+
+
+def oracle_walk(tree, exts: str, out: str) -> Tuple[str, str] | None:
+    """`Visitor.walk` ("similar, except it also calls the depart() method": walk() enters only).  From the docstrings,
+    on the trace alone: no departure is called for anybody; the main visitor and every extension enter exactly the
+    nodes of the pruned tree, in preorder, each once (SkipDeparture "not applicable; ignore"); the order inside one
+    node is BEFORE, OUTTER, main, AFTER, INNER; only a SkipSiblings of the walked node itself leaves walk().
+    (Lean: Visitor.walk_meaning / walk_visits_only / walk_ext_preorder / walk_main_preorder / walk_escape_iff.)"""
+    body, _, outcome = out[3:].rpartition(" | ")
+    evs = body.split()
+    if outcome.startswith("Crash"):
+        return ("walk:crash", outcome)
+    if outcome != "return" and not (outcome == "SkipSiblings" and tree[1] == "s"):
+        return ("walk:escape:" + outcome, f"{outcome} escaped walk()")
+    if outcome == "return" and tree[1] == "s":
+        return ("walk:skip-siblings-swallowed", "SkipSiblings raised for the walked node did not reach the caller of walk()")
+    pt = reached(tree)
+
+    def pre(p):
+        r = [str(p[0])]
+        for k in p[2]:
+            r += pre(k)
+        return r
+    want = pre(pt)
+    for e in evs:
+        m = EV.match(e)
+        if m.group(3) == "d":
+            return ("walk:departure-called", f"walk() called a departure: {e}")
+    for idx in range(len(exts)):
+        who = f"E{idx}v"
+        mine = [e[len(who):] for e in evs if e.startswith(who)]
+        if len(set(mine)) != len(mine):
+            return ("walk:entered-twice", f"extension {idx} ({exts[idx]}) entered a node twice under walk(): {mine}")
+        if mine != want:
+            return ("walk:prune-meaning", f"extension {idx} ({exts[idx]}) entered {mine} under walk(); documented pruning gives {want}")
+    mine = [e[2:] for e in evs if e.startswith("Mv")]
+    if mine != want:
+        return ("walk:prune-meaning:main", f"main visitor entered {mine} under walk(); documented pruning gives {want}")
+    rank_v = {"b": 0, "o": 1, "M": 2, "a": 3, "i": 4}
+    prev = None
+    for e in evs:
+        m = EV.match(e)
+        who = "M" if m.group(1) == "M" else exts[int(m.group(2))]
+        node = m.group(4)
+        r = rank_v[who]
+        if prev and prev[0] == node and r < prev[1]:
+            return ("walk:order", f"{e} out of documented order under walk()")
+        prev = (node, r)
     return None
 
 
@@ -688,6 +741,17 @@ def run(ctx: Ctx) -> None:
                 for ex in subsets:
                     cases.append((t, ex, "walkabout"))
     ctx.extra["exhaustive_cases"] = len(cases)
+    # Visitor.walk (the departure-less traversal): every tree of <=3 nodes x every action assignment x every timing
+    # subset, every tree of 4 nodes x every action assignment x {all four timings, none} (thorough: every subset)
+    nwalk = 0
+    for n in range(1, 5):
+        for sh in shapes(n):
+            for acts in itertools.product(ACTS, repeat=n):
+                t = label(sh, acts)
+                for ex in (subsets if (n < 4 or not ctx.quick) else ["baio", ""]):
+                    cases.append((t, ex, "walk"))
+                    nwalk += 1
+    ctx.extra["exhaustive_walk_cases"] = nwalk
     # random larger trees, repeated timings, and walk()
     nrand = 2000 if ctx.quick else 60000
     for _ in range(nrand):
@@ -758,6 +822,10 @@ def run(ctx: Ctx) -> None:
         ctx.count("nodes:%d" % sum(1 for _ in flatten(t)))
         if mode == "walkabout":
             v = oracle(t, ex, out) or oracle_departure(t, ex, "", out)
+            if v:
+                ctx.fail(v[0], {"tree": t, "exts": ex, "mode": mode, "impl": out}, v[1])
+        else:
+            v = oracle_walk(t, ex, out)
             if v:
                 ctx.fail(v[0], {"tree": t, "exts": ex, "mode": mode, "impl": out}, v[1])
     ctx.compare("visitor-trace", reqs, impls, payload)
